@@ -52,6 +52,7 @@ type Observed struct {
 	ParseErr   string    `json:"parse_err,omitempty"`
 	SQL        []string  `json:"sql"`
 	SQLErr     []string  `json:"sql_err,omitempty"`
+	Rows       []int     `json:"sql_rows,omitempty"` // rows each statement delivered to the reader
 	Unsup      []string  `json:"unsupported,omitempty"`
 }
 
@@ -277,6 +278,7 @@ func (w *World) Run(r CRequest) *Observed {
 	o := &Observed{Code: code}
 	for _, e := range w.W.Bridge.Drain() {
 		o.SQL = append(o.SQL, e.SQL)
+		o.Rows = append(o.Rows, e.Rows)
 		if e.Err != nil {
 			o.SQLErr = append(o.SQLErr, e.Err.Error())
 		}
